@@ -289,7 +289,21 @@ func (in *Interp) stringMethod(t types.Type, name string) bool {
 	return false
 }
 
-func (in *Interp) callStringMethod(ifc Iface, name string) Str {
+// callStringMethod calls Error()/String() the way fmt does: a panic inside the
+// method is recovered by fmt and rendered as text, it does not propagate.
+func (in *Interp) callStringMethod(ifc Iface, name string) (res Str) {
+	depth := len(in.stack)
+	defer func() {
+		if r := recover(); r != nil {
+			pe, ok := r.(pathEnd)
+			if !ok || pe.kind != "panic" {
+				panic(r)
+			}
+			in.stack = in.stack[:depth]
+			in.orderDev = true // the exact text is not modelled: no native comparison
+			res = strOf("%!v(PANIC=" + name + " method: " + pe.msg + ")")
+		}
+	}()
 	ms := in.w.prog.MethodSets.MethodSet(ifc.T)
 	for i := 0; i < ms.Len(); i++ {
 		sel := ms.At(i)
